@@ -1,5 +1,7 @@
 import SnootyVerif.Drv.Util
 import SnootyVerif.Model.EventWalk
+import SnootyVerif.Model.Handlers
+import SnootyVerif.Gen.Handlers
 open Lean
 namespace SnootyVerif.Drv.C02
 open SnootyVerif.Drv SnootyVerif.EventWalk
@@ -23,6 +25,12 @@ def walk (j : Json) : Except String Json := do
   let pages ← (← arr j "pages").toList.mapM (fun p => do pure (← str p "file", ← parseNd (← p.getObjVal? "ast")))
   pure (Json.mkObj [("log", Json.arr ((consume pages).map showEvt).toArray)])
 
-def ops : List (String × (Json → Except String Json)) := [("c02.walk", walk)]
+/-- request {stack: [names]} → `scan_for_pattern` with the translated target pattern: {ok: bool} | {exc} -/
+def scan (j : Json) : Except String Json := do
+  match Handlers.scanForPattern Gen.tabsTargetPattern (← strs j "stack") with
+  | .ok b => pure (Json.mkObj [("ok", Json.bool b)])
+  | .error _ => pure (Json.mkObj [("exc", "IndexError")])
+
+def ops : List (String × (Json → Except String Json)) := [("c02.walk", walk), ("c02.scan", scan)]
 
 end SnootyVerif.Drv.C02
